@@ -3,6 +3,54 @@
 import json, glob, os, re
 HERE = os.path.dirname(os.path.dirname(os.path.abspath(__file__)))
 STRENGTHENED = {
+ "C01-w6m1": "file shape 'flags' gained comma lists with an empty element (doubled / trailing comma)",
+ "C01-w6m2": "C01 now opens and consumes other results of the same object while an iteration over the database is open (nested, lock-step, look-ups)",
+ "C01-w6m3": "file shape 'dots_extras' gained a feature ending exactly at 2**29",
+ "C02-w6m1": "C02's ids now include one that looks like the 'autoincrement:' keyword, a quote, SQL wildcards and an escaped per-cent sign",
+ "C02-w6m3": "C02 writes several parents either as a comma list or by repeating the Parent key (the rest of the file has nothing to repeat)",
+ "C03-w6m1": "C03 gained an exon set starting at coordinate 0",
+ "C03-w6m2": "reported by C10 as built (counter of a featuretype first seen in an update, then reopen)",
+ "C03-w6m3": "C03 now follows the import with an update() bringing a brand-new gene and applies the same derivation rules to it",
+ "C04-w6m1": "reported by C10 as built (stored dialect after an update with other-format data, seen on reopening)",
+ "C04-w6m2": "C04 gained the ':start:' id_spec forms with a feature starting at 0",
+ "C04-w6m3": "reported by C10: new large history feeding update() lazily from merge() with more items than the peek window, then an id-less feature whose key must be new",
+ "C05-w6m1": "C05 gained force_merge_fields named in non-alphabetical order (all importers incl. GTF)",
+ "C05-w6m2": "C05 arrivals gained a line naming one value twice; merged features must be repeat-free, unmerged ones keep what was written",
+ "C05-w6m3": "C05 gained the importer 'create_db with a coordinate-moving transform' (the feature's bin at parse time differs from the stored one)",
+ "C06-w6m1": "C06 databases B and G use sequence names with '.', '-', '_' and a vertical bar",
+ "C06-w6m2": "C06 gained database G, built by the GTF importer",
+ "C06-w6m3": "C06 gained strand '.' as a query restriction (databases B and G)",
+ "C07-w6m1": "C07 raw values gained two consecutive blanks inside a value",
+ "C07-w6m2": "reported by C08 as built (repeated keys under a supplied dialect)",
+ "C08-w6m1": "C08 gained part 'batch': every value of length <= 2 printed under one dialect, all lines in one text read back through path / gzip / from_string (also reported by C13 and C14)",
+ "C08-w6m2": "C08 prints each value once with the library-wide 'do not escape' switch on before the switch-off print that is judged",
+ "C08-w6m3": "reported by C07 as built (coordinates beyond 2**53)",
+ "C09-w6m1": "reported by C10, which gained an update bundle written in another (consistent) dialect than the database",
+ "C09-w6m3": "C09 'cons' now asks the same text as a string and demands the path form's dialect for every checklines value",
+ "C10-w6m3": "C10 gained a second large history: updates fed from a one-shot generator / from merge() with more items than the importer's peek window",
+ "C11-w6m1": "C11's database gained feature types with an apostrophe, differing only by case, and at an SQL-wildcard position; asked as str, list, tuple and set",
+ "C12-w6m1": "reported by C06 as built (limit= ending exactly at 2**29)",
+ "C12-w6m2": "C12 builds Features from coordinates given as text and as floats holding integers",
+ "C12-w6m3": "reported by C06, whose Feature-form query may now be a Feature moved after construction",
+ "C13-w6m3": "reported by C14 as built (directives after the peek window)",
+ "C14-w6m1": "reported by C10 as built (directives after update and reopen)",
+ "C14-w6m2": "C14's directive lines gained trailing blanks (odd ones)",
+ "C14-w6m3": "C14's comment / pragma / directive lines gained U+2028, form feed and NEL, which only str.splitlines() takes for line ends",
+ "C15-w6m1": "C15 gained part 'unstranded': gaps and site positions as usual, and no five-/three-prime label without a strand to go by",
+ "C15-w6m2": "C15 features gained signed numbers and exponent notation among the values sorted numerically",
+ "C16-w6m1": "C16 compares the database through a second connection after merge_all (committed?)",
+ "C16-w6m2": "C16's exons name both transcript and gene; children_bp is also asked through the gene (related at two levels)",
+ "C16-w6m3": "C16 gained the pattern 'sequence name containing a comma' for runs of at most two members",
+ "C17-w6m1": "C17 compares every view of the mapping (items, values, get, iteration) with the item view under both switch settings",
+ "C17-w6m3": "C17's JSON mappings alternate between ordinary keys and keys with a meaning in Python ('self', 'kwargs', '__class__')",
+ "C18-w6m1": "C18's blocks name transcript and gene; bed12 is also asked through the gene (reported by C10 as built, too)",
+ "C18-w6m2": "C18's decoy children gained types differing only by case / at an SQL-wildcard position (C11 reports it as well)",
+ "C18-w6m3": "reported by C10 as built (stale look-ups after an update fed lazily from the same object)",
+ "C19-w6m1": "C19's databases are imported with a two-line dialect window and hold later keys; single read calls are also made on objects opened with keep_order / sort_attribute_values / pragmas",
+ "C19-w6m3": "C19 'clobber' gained the database path forms relative and symbolic link (relative link text, other current directory); the call runs from a scratch working directory",
+ "C20-w6m1": "quick had dropped the GTF+GTF pair a few hours earlier; restored (another same-format pair is left out instead)",
+ "C20-w6m2": "C20 gained a job whose output file is named like the forced job's output plus a suffix, in the same directory",
+ "C20-w6m3": "C20 gained a job run with verbose='debug'",
  "C01-w5m3": "reported by C13 as built (one-shot iterator forms: every item must arrive exactly once)",
  "C02-w5m2": "reported by C10, whose live-object oracle now asks children(featuretype=...) with a type that only the update introduced",
  "C03-w5m3": "reported by C13 as built (one-shot non-generator iterables of Feature objects)",
@@ -164,12 +212,16 @@ at what small-scope exhaustive checking is most likely to miss; the fifth wave (
 earlier proposals and asked for error paths (what happens after something legitimately fails), argument
 forms (generator vs list, positional vs keyword, Feature vs id, tuple vs list), one public method changing
 what another later returns, shared or subtly different defaults, and off-by-one at documented boundaries.
-%d of the %d changes were not reported by their own property's check as it stood when they were first
-tried (%d of those were reported by another property's check straight away); all are now. Three further
-fifth-wave proposals (for C02, C04, C10) were dropped, not kept as seeded changes: all three only alter
-what a FAILED update leaves in the main database file, which the statements leave open (C10 only demands
-the backup file; the checks deliberately do not judge the main file there), so reporting them would be
-demanding more than the properties state. Scale is handled by adding, per property, one or two
+The sixth wave
+(`*-w6m*`) was asked for persistence (visible only after reopening / only for file databases), SQL
+construction, text edge cases, the iterator protocol, the less travelled of two code paths for one behaviour,
+and numeric edges. %d of the %d changes were not reported by their own property's check as it stood when they
+were first tried (%d of those were reported by another property's check straight away); all are now. Four
+proposals were dropped, not kept as seeded changes: four (C02, C04, C10 in the fifth wave, C10 in the sixth)
+only alter what a FAILED update leaves in the main database file, which the statements leave open (C10 only
+demands the backup file; the checks deliberately do not judge the main file there), so reporting them would
+be demanding more than the properties state. One sixth-wave change (merge criterion on sequence names holding
+a comma) is kept but only judged on runs of two members, see C16's assumptions. Scale is handled by adding, per property, one or two
 deliberately large executions next to the exhaustive small-scope exploration (C02, C03, C10, C16, C20);
 those are single cases, not an exhaustive sweep, and are labelled so in the evidence. Each was then confirmed here in a scratch copy
 outside /repo and /verif (`tools/seed.py`): the agent's demonstration passes on the unmodified copy, the
